@@ -288,7 +288,7 @@ func (c *Ctx) c05Iterate() {
 		filtered := false
 		for _, cj := range d {
 			for _, l := range cj {
-				t := c.O.Of(l.V)
+				t := l.TermOf(c.O)
 				if t.Kind == "binop" && t.Name == "<" {
 					continue
 				}
@@ -421,7 +421,7 @@ func (c *Ctx) c05Warn() {
 					continue
 				}
 				nst++
-				v := c.O.Of(st.Val)
+				v := c.OfInl(st.Val) // a local constructor helper (func() *log.Logger { return log.New(…) }) is read through
 				toStderr := v.IsCallTo("log.New") && v.Args[0].Is("global", "os.Stderr")
 				key := sprintf("%s:store-elogger%d", FnKey(fn), nst)
 				if toStderr {
